@@ -28,4 +28,6 @@ def run(tier, seed, replay=None):
 
 
 def extra(ck, tu, X, tier, seed):
-    pass
+    from checks import pywriter
+    pywriter.add_py_writer(ck, "C05", 4 if tier == "thorough" else 3)
+    ck.replayers["py."] = replay_writer.replay
